@@ -2,7 +2,7 @@
    and the in-Coq cross-check (cases.v, vm_compute) both call. *)
 From Coq Require Import List NArith ZArith Bool.
 Import ListNotations.
-From RV Require Import Base.Str Base.PathLex Path.Clean Path.CleanSpec Path.Relative Path.Helpers Path.HelpersFacts Core.Iter.
+From RV Require Import Base.Str Base.PathLex Path.Clean Path.CleanSpec Path.Relative Path.Helpers Path.HelpersFacts Core.Iter File.MemFile.
 
 Definition api_components := components.
 Definition api_push := push.
@@ -73,3 +73,17 @@ Definition api_str_to_bool := str_to_bool.
 Definition api_str_trim_suffix := str_trim_suffix.
 Definition api_opt_has (o : option N) (x : N) := opt_has N.eqb o x.
 Definition api_take_while_ne (c : N) (s : list N) := take_while_p (fun x => negb (N.eqb x c)) s.
+
+(* ---- C07 ---- *)
+Definition api_mf_run (data : list N) (ops : list rop) := mf_run {| mf_pos := 0%Z; mf_data := data |} ops.
+Definition api_c_run (data : list N) (ops : list rop) := c_run {| c_pos := 0%Z; c_data := data |} ops.
+(* transcript of a write/append handle: the stored content after every flush, then after drop *)
+Fixpoint wh_trace (h : whandle) (store : option (list N)) (ops : list wop) : list (option (list N)) :=
+  match ops with
+  | [] => [snd (fst (wh_sync h store))]
+  | o :: ops' =>
+      let '(h', s', _) := wh_step h store o in
+      match o with WFlush => s' :: wh_trace h' s' ops' | _ => wh_trace h' s' ops' end
+  end.
+Definition api_wh_trace (append : bool) (old : list N) (removed : bool) (ops : list wop) :=
+  wh_trace (if append then open_append old else open_write) (if removed then None else Some old) ops.
